@@ -10,6 +10,7 @@ from typing import (
     ClassVar,
     Dict,
     List,
+    Literal,
     Optional,
     Set,
     Tuple,
@@ -288,6 +289,16 @@ else:
                 current_path,
                 "union_mismatch",
             )
+
+        # Literal types: the value must be one of the listed members
+        if origin is Literal:
+            if not any(value == member and type(value) is type(member) for member in get_args(expected)):
+                raise ValidationError(
+                    f"value is not one of {get_args(expected)!r}",
+                    current_path,
+                    "literal_error",
+                )
+            return value
 
         # Simple type validation
         if origin is None:
